@@ -601,15 +601,15 @@ class PPG3204():
         if not isinstance(data, (str,) + Array_Like):
             raise ValueError('`data` is not in the correct format')
         
-        if len(data) > self.MAX_MEMORY_LEN-start_addrs+1:
-            msg = 'The length of the data is greater than the maximum memory length minus the start address. Setting to the nearest value.'
-            warnings.warn(msg)
-            data = data[:self.MAX_MEMORY_LEN-start_addrs+1]
-
         if isinstance(data, str):
             data = str2array(data, bool).astype(np.uint8)
         else:
             data = np.array(data, dtype=bool).astype(np.uint8)
+
+        if data.shape[-1] > self.MAX_MEMORY_LEN-start_addrs+1: # number of bits per channel (not separators of a string, not rows of a 2D array)
+            msg = 'The length of the data is greater than the maximum memory length minus the start address. Setting to the nearest value.'
+            warnings.warn(msg)
+            data = data[..., :self.MAX_MEMORY_LEN-start_addrs+1]
         
         if data.ndim == 1:
             data = np.tile(data, (CHs.size, 1))
